@@ -152,6 +152,19 @@ def verifyEnv (d : DS) : Env :=
   { d.env with txs := d.env.txs.map (fun p =>
       if d.autogen.contains p.1 then (p.1, { p.2 with kin := ⟨"!autogen", some (0, 999999)⟩ :: p.2.kin }) else p) }
 
+/-- the environment of a walk to `dest`: `skipRepost` = the pending transactions that the ledger records as confirmed on
+the chain the walk ends on (`isConfirmedOnCurrentChain`: the transaction's recorded block and the destination are both on
+the main chain, the former not above the latter) -/
+def walkEnv (d : DS) (dest : Nat) : Env :=
+  let onChain (i : Nat) : Bool :=
+    match lookup d.l.C i, lookup d.l.B dest with
+    | some b, some hd =>
+      (match lookup d.l.B b with
+       | some hb => hb.inTrunk && hd.inTrunk && hb.height ≤ hd.height
+       | none => false)
+    | _, _ => false
+  { verifyEnv d with skipRepost := d.s.pool.filter onChain }
+
 def step (d : DS) (line : String) : DS × String :=
   let ws := words line
   match ws with
@@ -245,12 +258,12 @@ def step (d : DS) (line : String) : DS × String :=
       let (s', r) := playForMiner d.env d.s (ledgerH d) (d.env.block (arg 0))
       ({ d with s := s' }, if r == .ok then "ok" else "fail")
     | "walk" =>
-      let (s', ok) := walk (verifyEnv d) d.s (ledgerH d) (arg 0) (getKV kv "prune" == "1")
+      let (s', ok) := walk (walkEnv d (arg 0)) d.s (ledgerH d) (arg 0) (getKV kv "prune" == "1")
       ({ d with s := s' }, if ok then "ok" else "fail")
     | "walktrace" =>
       -- the walk and the state after each of its atomic batches (`XV.Crash.walkTrace`)
-      let tr := XV.Crash.walkTrace (verifyEnv d) d.s (ledgerH d) (arg 0) false
-      let (s', ok) := walk (verifyEnv d) d.s (ledgerH d) (arg 0) false
+      let tr := XV.Crash.walkTrace (walkEnv d (arg 0)) d.s (ledgerH d) (arg 0) false
+      let (s', ok) := walk (walkEnv d (arg 0)) d.s (ledgerH d) (arg 0) false
       -- block-boundary part element by element; of the re-admission part (order among independent transactions is not
       -- fixed by the code) the number of batches and the last state
       let mid := tr.filter (fun st => st.pool.isEmpty)
